@@ -28,8 +28,9 @@ func c16Header(n int) []byte {
 //
 //	uvarint(len(header)) ‖ header ‖ file_1[HeaderSize_1:] ‖ … ‖ file_K[HeaderSize_K:]
 //
-// and it accepts the metadata iff OriginalCarHeaderSize is the size of the prefixed header and
-// every local file is exactly HeaderSize+ContentSize long (the documented check).
+// It must accept when OriginalCarHeaderSize is the size of the prefixed header and every local
+// file is exactly HeaderSize+ContentSize long, and must reject a wrong header size or a local
+// file shorter than HeaderSize+ContentSize.
 func VerifC16Reader() {
 	hdrLens := []int{3, 130}
 	H := hdrLens[verifChoice("header_len", len(hdrLens))]
@@ -51,7 +52,8 @@ func VerifC16Reader() {
 	files := make([][]byte, K)
 	hs := make([]uint64, K)
 	cs := make([]uint64, K)
-	sizesOK := meta.OriginalCarHeaderSize == uint64(len(prefixed))
+	hdrOK := verifIteU64(meta.OriginalCarHeaderSize == uint64(len(prefixed)), 1, 0)
+	allExact, noneShort := uint64(1), uint64(1)
 	for k := 0; k < K; k++ {
 		F := fileLens[verifChoice("file_len", len(fileLens))]
 		files[k] = verifBytes(fmt.Sprintf("file%d", k), F)
@@ -60,24 +62,28 @@ func VerifC16Reader() {
 		hs[k] = uint64(verifU8("piece_header_size"))
 		cs[k] = uint64(verifU8("piece_content_size"))
 		meta.CarPieces = append(meta.CarPieces, carlet.CarFile{Name: name, HeaderSize: hs[k], ContentSize: cs[k]})
-		sizesOK = verifIteU64(hs[k]+cs[k] == uint64(F), 1, 0)&verifIteU64(sizesOK, 1, 0) == 1
+		allExact &= verifIteU64(hs[k]+cs[k] == uint64(F), 1, 0)
+		noneShort &= verifIteU64(hs[k]+cs[k] <= uint64(F), 1, 0)
 	}
 
 	scr, err := NewSplitCarReader(meta, func(cf carlet.CarFile) (ReaderAtCloserSize, error) {
 		return NewFileSplitCarReader(cf.Name)
 	})
 	if err != nil {
-		verifAssert(!sizesOK, "C16.reader: NewSplitCarReader rejected metadata whose sizes match the header and the files")
+		verifAssert(hdrOK&allExact == 0, "C16.reader: NewSplitCarReader rejected metadata whose sizes match the header and the files")
 		verifReach("rejected")
 		return
 	}
-	verifAssert(sizesOK, "C16.reader: NewSplitCarReader accepted metadata whose sizes do not match the header or the local files")
+	// a wrong header size or a local file shorter than HeaderSize+ContentSize must be rejected; a
+	// longer file (padding, or the subset node split-car appends) may be accepted or rejected
+	verifAssert(hdrOK&noneShort == 1, "C16.reader: NewSplitCarReader accepted a wrong header size or a local file shorter than HeaderSize+ContentSize")
 
-	// the expected stream (sizes are pinned by the accepted check: hs+cs = len(file))
+	// the expected stream: the declared content region of every piece
 	whole := append([]byte{}, prefixed...)
 	for k := 0; k < K; k++ {
 		h := int(verifConcU64(hs[k]))
-		whole = append(whole, files[k][h:]...)
+		c := int(verifConcU64(cs[k]))
+		whole = append(whole, files[k][h:h+c]...)
 	}
 	total := len(whole)
 	// offsets: the window from two bytes before the end of the header to one past the end,
